@@ -23,6 +23,7 @@ mod c13;
 mod c14;
 mod c15;
 mod c16;
+mod c17;
 mod c18;
 mod c19;
 
@@ -107,6 +108,7 @@ fn main() {
         "C14" => (c14::run, c14::replay),
         "C15" => (c15::run, c15::replay),
         "C16" => (c16::run, c16::replay),
+        "C17" => (c17::run, c17::replay),
         "C18" => (c18::run, c18::replay),
         "C19" => (c19::run, c19::replay),
         _ => usage(),
